@@ -97,3 +97,10 @@ Lemma fit_ranges_are_the_image : forall h,
   src_pv_fit_ranges (h_naxis1 h) (h_naxis2 h) (h_crpix1 h) (h_crpix2 h) = image_rect_offsets h /\
   src_sip_fit_ranges (h_naxis1 h) (h_naxis2 h) (h_crpix1 h) (h_crpix2 h) = image_rect h.
 Proof. intros. split; reflexivity. Qed.
+
+(* Distort, forward direction: per convention the start value (TPV / scamp: the polynomial alone, 0 * x; SIP: a
+   correction added to the input, x * 1.0) to which Apply2DPolynomial's value is added *)
+Lemma distort_is_source : forall a b x y,
+  distort_with DScamp a b x y = src_distort true (poly2d a x y) (poly2d b x y) x y /\
+  distort_with DSip a b x y = src_distort false (poly2d a x y) (poly2d b x y) x y.
+Proof. intros. split; reflexivity. Qed.
